@@ -189,6 +189,8 @@ func (g *c10Gen) input() c10Input {
 			"tail:plain=true " + g.files[1] + " regex:noop ", "cat:quiet=true " + g.dir + "/*.log regex:noop ",
 			"cat " + g.dir + "/many/*.log regex:noop ", "grep " + g.dir + "/many/m*.log regex:default one",
 			"cat " + g.dir + "/cut.gz regex:noop ", "cat " + g.dir + "/cut.zst regex:noop ", "grep " + g.dir + "/cut.gz regex:default STATS",
+			"map select count($line),last($line) group by $hostname set $x = md5sum($line) logformat generic", "cat " + g.dir + "/lines3000.log regex:noop ",
+			"map select count($line) group by $hostname",
 			"cat " + g.dir + "/garbage.gz regex:noop ", "cat " + g.dir + "/zero.zst regex:noop ", "tail " + g.dir + "/cut.gz regex:noop ",
 			"map select count($line) from STATS group by $hostname", "map from STATS select count($line),max($goroutines) group by $hostname interval 1",
 			"map " + g.queries[rng.Intn(len(g.queries))], ".ack close connection", "grep:max=1:after=2 " + f + " regex:invert two",
@@ -259,6 +261,13 @@ func c10(r *vlib.Run) int {
 	for k := 0; k < 6000; k++ {
 		fmt.Fprintf(&stats, "INFO|1002-071209|1|m.go:1|8|14|7|0.21|471h|MAPREDUCE:STATS|a=%d|b=%d\n", k%7, k)
 	}
+	{
+		var b bytes.Buffer
+		for k := 0; k < 3000; k++ {
+			fmt.Fprintf(&b, "line %d of a file without any mapreduce table 2026-10-05 user%d\n", k, k%13)
+		}
+		os.WriteFile(filepath.Join(dir, "lines3000.log"), b.Bytes(), 0644)
+	}
 	var broken []string
 	for _, ext := range []string{".gz", ".zst"} {
 		whole := compress(ext, stats.Bytes())
@@ -279,7 +288,7 @@ func c10(r *vlib.Run) int {
 	}
 	g := &c10Gen{rng: r.Rng("inputs"), files: append([]string{f1, f2}, broken...), dir: dir, queries: queries}
 	n := r.N(5000, 250000)
-	inputs := append(make([]c10Input, 8), c10Probes(f1)...) // the first 8 are overwritten below
+	inputs := append(make([]c10Input, 12), c10Probes(f1)...) // the first 12 are overwritten below
 	for len(inputs) < n {
 		inputs = append(inputs, g.input())
 	}
@@ -301,6 +310,20 @@ func c10(r *vlib.Run) int {
 			f := []string{"/cut.gz", "/cut.zst", "/cut.gz", "/garbage.gz"}[k-4]
 			q := []string{"map select count($line) from STATS group by a", "map from STATS select count($line),max(b) group by a interval 1"}[k%2]
 			inputs[i] = c10Input{Hex: fmt.Sprintf("%x", encodeCommand(q)+encodeCommand("cat "+dir+f+" regex:noop ")), Class: "valid-sequence/map,cat-broken-compressed-file"}
+		}
+	}
+	// mapreduce sessions with the generic log format (no table, or logformat
+	// generic), with and without a set clause, over a few thousand lines: every
+	// line passes through all stages of the aggregation pipeline
+	for i := range inputs {
+		if k := i % 400; k >= 8 && k < 12 {
+			q := []string{
+				"map select count($line),last($line) group by $hostname set $x = md5sum($line) logformat generic",
+				"map select count($line) group by $hostname",
+				"map select count($x),max($y) group by $x set $x = maskdigits($line), $y = 42 logformat generic interval 1",
+				"map select $line,count($line) group by $line logformat generic",
+			}[k-8]
+			inputs[i] = c10Input{Hex: fmt.Sprintf("%x", encodeCommand(q)+encodeCommand("cat "+dir+"/lines3000.log regex:noop ")), Class: "valid-sequence/map-generic,cat-until-done"}
 		}
 	}
 	cases := make([]interface{}, len(inputs))
